@@ -110,6 +110,29 @@ pub open spec fn port(g: &GeneratorState, v: Variable, m: AsmMnemonic) -> int {
         else { 0 }
     } else { 0 }
 }
+// C17 / C01: the operand text of a memory access names the cell `symbol + displacement`, the displacement being the constant index, plus the
+// port offset of the access (C17), plus the position of the high byte (1 for a 16-bit scalar; the array length for split low/high tables)
+pub open spec fn addr_text(n: Seq<char>, d: int) -> Seq<char> { if d == 0 { n } else { n + "+"@ + dec(d) } }
+pub open spec fn mem_text(g: &GeneratorState, m: AsmMnemonic, operand: ExprType, hb: bool) -> Option<Seq<char>> {
+    let v = var_of(g, operand);
+    let p = port(g, v, m);
+    let ptrptr = v.var_type == VariableType::CharPtrPtr || v.var_type == VariableType::ShortPtr;
+    match operand {
+        ExprType::Absolute(n, eb, off) => {
+            let d: Option<int> = match v.var_type {
+                VariableType::Char => if eb && !hb { Some(off + p) } else { None },
+                VariableType::Short => if eb && hb { None } else { Some(off + p + if hb { 1int } else { 0int }) },
+                VariableType::CharPtr => if (!eb && v.var_const) || (hb && eb) || (eb && !v.var_const) { None } else { Some(off + p + if hb { 1int } else { 0int }) },
+                _ => Some(off + p + if hb { v.size as int } else { 0int }),
+            };
+            match d { Some(d) => if d >= 0 { Some(addr_text(n@, d)) } else { None }, None => None }      // negative displacements: not specified
+        }
+        ExprType::AbsoluteX(n) => if ptrptr { Some(addr_text(n@, p + if hb { v.size as int } else { 0int }) + ",X"@) } else if hb { None } else { Some(addr_text(n@, p) + ",X"@) },
+        ExprType::AbsoluteY(n) => if ptrptr { Some(addr_text(n@, p + if hb { v.size as int } else { 0int }) + ",Y"@) } else if hb { None }
+                                  else if v.var_type == VariableType::CharPtr && !v.var_const { Some("("@ + addr_text(n@, p) + "),Y"@) } else { Some(addr_text(n@, p) + ",Y"@) },
+        _ => None,
+    }
+}
 // What asm() leaves to its callers (weakest precondition found by proof; each line is a caller obligation, unproved here):
 pub open spec fn caller_legal(g: &GeneratorState, m: AsmMnemonic, operand: ExprType, high_byte: bool) -> bool {
     let v = var_of(g, operand);
@@ -175,6 +198,7 @@ ASM_HEADER = """
             emitted_one(old(self).out.code@, final(self).out.code@) ==> (operand is Nothing ==> new_inst(old(self).out.code@, final(self).out.code@).dasm_operand@.len() == 0), //@ C13:text-nothing
             emitted_one(old(self).out.code@, final(self).out.code@) ==> (m_rmw(new_inst(old(self).out.code@, final(self).out.code@).mnemonic) && (operand is Absolute || operand is AbsoluteX || operand is AbsoluteY) ==> !split_port(old(self), var_of(old(self), *operand))), //@ C17:rmw
             emitted_one(old(self).out.code@, final(self).out.code@) ==> (plain_abs(old(self), mnemonic, *operand, high_byte) ==> new_inst(old(self).out.code@, final(self).out.code@).dasm_operand@ == operand->Absolute_0@), //@ C13,C18:text-abs-plain
+            emitted_one(old(self).out.code@, final(self).out.code@) ==> (match mem_text(old(self), mnemonic, *operand, high_byte) { Some(t) => new_inst(old(self).out.code@, final(self).out.code@).dasm_operand@ =~= t, None => true }), //@ C17,C01:text-address
             (operand is Nothing || operand is Immediate || operand is Tmp || operand is Label) ==> res is Ok, //@ C16:asm-total-simple
             (operand is A && mnemonic == LDA) ==> final(self).out.code@ == old(self).out.code@, //@ C13:asm-lda-a-emits-nothing
             operand is Absolute ==> ((res is Ok) == abs_accepted(old(self), mnemonic, *operand, high_byte)), //@ C13,C16:asm-abs-accepts
